@@ -277,6 +277,8 @@ pub struct Batch<P> {
     pub soft_skips: u64,
     pub wall: Duration,
     pub hang: Option<(u64, u64)>,
+    /// some worker stopped early after 25 violations
+    pub cut_short: bool,
 }
 
 /// first run index of this process (a batch can be split over several processes, e.g. under Miri)
@@ -321,6 +323,7 @@ pub fn run_batch<E: Engine>(engine: &E, base_seed: u64, tier: Tier, runs: u64, o
         classes: BTreeMap<String, (u64, Found<P>)>,
         harness_errors: Vec<(u64, String)>,
         soft_skips: u64,
+        cut_short: bool,
     }
 
     let parts: Vec<Part<E::Plan>> = std::thread::scope(|scope| {
@@ -369,11 +372,21 @@ pub fn run_batch<E: Engine>(engine: &E, base_seed: u64, tier: Tier, runs: u64, o
                             classes: BTreeMap::new(),
                             harness_errors: Vec::new(),
                             soft_skips: 0,
+                            cut_short: false,
                         };
                         let base = index_base();
                         let mut i = base + w as u64;
+                        let mut seen_violations = 0u64;
                         while i < base + runs {
                             if done.load(Ordering::Relaxed) {
+                                break;
+                            }
+                            // On a violating tree every further run only repeats the message (and may be very slow, e.g.
+                            // an unchecked expansion): each worker stops after its 25th violation. Every worker walks its
+                            // indices in order, so the lowest-index occurrence of what it saw is still found and the
+                            // verdict does not depend on the worker count; on a tree where the property holds nothing changes.
+                            if seen_violations >= 25 {
+                                part.cut_short = true;
                                 break;
                             }
                             let seed = run_seed(base_seed, id, i);
@@ -400,6 +413,7 @@ pub fn run_batch<E: Engine>(engine: &E, base_seed: u64, tier: Tier, runs: u64, o
                                         part.hashes.insert(plan_hash(&plan));
                                     }
                                     if let Some(v) = out.violation {
+                                        seen_violations += 1;
                                         match part.classes.get_mut(&v.class) {
                                             Some((n, _)) => *n += 1,
                                             None => {
@@ -448,6 +462,7 @@ pub fn run_batch<E: Engine>(engine: &E, base_seed: u64, tier: Tier, runs: u64, o
         soft_skips: 0,
         wall: Duration::ZERO,
         hang: *hang.lock().unwrap(),
+        cut_short: false,
     };
     let mut all_hashes: HashSet<u64> = HashSet::new();
     let mut herrs: Vec<(u64, String)> = Vec::new();
@@ -459,6 +474,7 @@ pub fn run_batch<E: Engine>(engine: &E, base_seed: u64, tier: Tier, runs: u64, o
         b.bytes += p.bytes;
         b.stats.merge(&p.stats);
         b.soft_skips += p.soft_skips;
+        b.cut_short |= p.cut_short;
         all_hashes.extend(p.hashes);
         herrs.extend(p.harness_errors);
         for (class, (n, found)) in p.classes {
@@ -666,6 +682,9 @@ pub fn check<E: Engine>(engine: &E, tier: Tier, opts: &CheckOpts) -> CheckResult
     }
     for l in &known_lines {
         println!("{l}");
+    }
+    if b.cut_short {
+        println!("zsim {id}: batch cut short after 25 violations per worker ({} of {runs} runs executed)", b.evaluations);
     }
 
     // reach
